@@ -1,6 +1,7 @@
 import BoltonsVerif.C05.Script
 import BoltonsVerif.C05.AcceptProofs
 import BoltonsVerif.C05.AcceptMore
+import BoltonsVerif.C05.AcceptHist
 import BoltonsVerif.C04.Props
 import BoltonsVerif.Generated.C05_Consts
 /-
@@ -425,26 +426,7 @@ real `atomic_save` in every case (C05.Driver) and compares the replayed file sys
 `t` the observed trace, `raises` = the with-block ended by raising, `ok` = the caller saw no
 exception, `content` = the bytes the block wrote, `m` = the machine state after the replay. -/
 
-structure Observed (cfg : Cfg) (raises ok : Bool) (content : Bytes) (fs0 : FS) (e : Nat) (t : List Obs) (m : M) : Prop where
-  acc : Accept cfg raises ok content fs0.umask fs0.destMode t = true
-  run : replay (M.start fs0 e) t = some m
-
-/-- what the helper lemmas give for an accepted, executable trace -/
-theorem Observed.rj {cfg raises ok content fs0 e t m} (h : Observed cfg raises ok content fs0 e t m) :
-    ∃ a, A.init.run cfg raises t = some a ∧ accEnd cfg raises ok content fs0.umask fs0.destMode t a = true ∧
-      RJ cfg raises fs0 m a ∧ m.tr = oks t ∧ a.s.published = publishes (oks t) := by
-  have hacc := h.acc
-  unfold Accept at hacc
-  cases ha : A.init.run cfg raises t with
-  | none => simp [ha] at hacc
-  | some a =>
-    simp only [ha] at hacc
-    have htr : m.tr = oks t := by simpa [M.start] using replay_tr t _ m h.run
-    have hst := A_run_st cfg raises t A.init a ha
-    have hp := (published_run (oks t) St.init a.s hst).1
-    have hinit : St.init.published = false := by decide
-    rw [hinit, Bool.false_or] at hp
-    exact ⟨a, rfl, hacc, RJ_run cfg raises fs0 t _ m A.init a (RJ_start cfg raises fs0 e) ha h.run, htr, hp⟩
+-- (`Observed cfg raises ok content fs0 e t m` := `Accept … t = true` ∧ `replay (M.start fs0 e) t = some m`, see AcceptHist.lean)
 
 /-- **An accepted save that is not published leaves the destination exactly as it was** (or, if another
     process created it meanwhile, exactly that process's file) -/
@@ -715,6 +697,37 @@ theorem nofault_runs_are_accepted (cfg : Cfg) (fs0 : FS) (body : Body) :
       ((saverTrace cfg fs0 body).map Obs.ok) = true :=
   saverTrace_accepted cfg fs0 body
 
+/-! ### histories of saves on the same directory -/
+
+/-- **The state an accepted save leaves behind is a legitimate starting state**: well-formed, the
+    bookkeeping inode untouched - so every `accepted_*` theorem applies to the NEXT save on the same
+    directory (the retry, the same `AtomicSaver` object used again, another saver) -/
+theorem accepted_next_start (cfg : Cfg) (raises ok : Bool) (content : Bytes) (fs0 : FS) (e : Nat) (t : List Obs) (m : M)
+    (hst : Start fs0 e) (h : Observed cfg raises ok content fs0 e t m) (hne : hasAppear t = false) : Start m.fs e :=
+  h.next_start hst hne
+
+/-- **Any number of failed saves in a row leave the destination as it was**: in a history of accepted
+    saves (each started in the state its predecessor left; any configurations, any faults) none of which
+    is published, the destination has at the end exactly the bytes and mode it had at the start -/
+theorem history_of_failures_preserves_dest (e : Nat) (fs0 fs : FS) (saves : List SaveObs)
+    (hst : Start fs0 e) (h : History e fs0 saves fs) (hnp : ∀ s ∈ saves, publishes (oks s.t) = false) :
+    fs.readDest = fs0.readDest ∧ fs.destMode = fs0.destMode :=
+  h.unpublished_dest hst hnp
+
+/-- **The destination always holds the content of the last completed save**: in a history of accepted
+    saves `pre ++ [s] ++ post` where `s` is published and none of `post` is, the destination holds at the
+    end exactly the bytes written by `s`'s block - whatever failed in the saves after it -/
+theorem history_last_completed_save_wins (e : Nat) (fs0 fs : FS) (pre post : List SaveObs) (s : SaveObs)
+    (hst : Start fs0 e) (h : History e fs0 (pre ++ s :: post) fs) (hpub : publishes (oks s.t) = true)
+    (hnp : ∀ x ∈ post, publishes (oks x.t) = false) : fs.readDest = some s.content := by
+  obtain ⟨mid, h1, h2⟩ := History.split pre (s :: post) fs0 fs h
+  have hmid := h1.start hst
+  cases h2 with
+  | cons _ _ m _ _ hobs hne hrest =>
+    have hs := hobs.next_start hmid hne
+    rw [(hrest.unpublished_dest hs hnp).1]
+    exact hobs.published_dest hpub
+
 /-- **Probes are free**: observations without effect on the automaton - successful calls without effect
     on the two names (stat, lstat, fdopen, fcntl, close of a closed object ...) and calls that failed on
     their own without being a listed step (an `unlink` / `stat` answering ENOENT) - can be inserted or
@@ -751,6 +764,13 @@ example : (replay (M.start fsEx 1) obsFsyncFails).isSome = true ∧ failedBefore
 example : Accept {} false true [78, 69, 87] 0o022 (some 0o640) obsOtherOrder = true ∧
     (replay (M.start fsEx 1) obsOtherOrder).isSome = true ∧ publishes (oks obsOtherOrder) = true ∧
     hasAppear obsOtherOrder = false := by decide
+-- a history: the save whose fsync fails, then the completed one (from the state the first left)
+def mEx1 : M := (replay (M.start fsEx 1) obsFsyncFails).get (by decide)
+def mEx2 : M := (replay (M.start mEx1.fs 1) obsOtherOrder).get (by decide)
+example : History 1 fsEx [⟨{}, false, false, [78, 69, 87], obsFsyncFails⟩, ⟨{}, false, true, [78, 69, 87], obsOtherOrder⟩] mEx2.fs :=
+  History.cons fsEx _ mEx1 _ _ ⟨by decide, by simp [mEx1]⟩ (by decide)
+    (History.cons mEx1.fs _ mEx2 _ _ ⟨by decide, by simp [mEx2]⟩ (by decide) (History.nil _))
+example : mEx1.fs.readDest = some [79, 76, 68] ∧ mEx2.fs.readDest = some [78, 69, 87] ∧ mEx2.fs.destMode = some 0o640 := by decide
 -- rejected: publication after the failed fsync; a silent failure; the part file left behind; a `rename` with
 -- overwrite=False; a stale part file removed without overwrite_part; wrong permission bits; content that is not the block's
 example : Accept {} false true [78, 69, 87] 0o022 (some 0o640)
